@@ -88,6 +88,8 @@ pub fn event(o: &Outcome) -> Value {
         "ok": o.ok,
         "any_fail": o.sink.any_fail,
         "panic": o.panic.clone().unwrap_or_default(),
-        "calls": o.sink.calls.iter().map(|(b, r)| json!({"offered": enc::bytes(b), "resp": r})).collect::<Vec<_>>(),
+        // the offered buffer is logged by its length and its first 24 bytes (write_all offers the whole
+        // rest of a section on every call, which would make the trace quadratic)
+        "calls": o.sink.calls.iter().map(|(b, r)| json!({"offered": enc::bytes(&b[..b.len().min(24)]), "offered_len": b.len(), "resp": r})).collect::<Vec<_>>(),
     })
 }
